@@ -60,6 +60,8 @@ AXES = {
     "integers": [("__ints", None, True)],
     "met-defaults": [("met", "__omit", ["mol", "wind_speed", "wind_dir"]), ("met", "__omit", ["mol"]), ("met", "__omit", ["wind_dir"])],
     "square-grid": [("domain", "__square", 6)],
+    # an odd cell count with a truncating mode request: the low-level pipeline refuses it (C11), so must the run
+    "odd-grid": [("domain", "__odd", 7)],
     "source": [("solver", "surface_flux_shape", "circle"), ("solver", "surface_flux_shape", "point"), ("solver", "src_loc", [30.0, 20.0]), ("solver", "src_loc", [0.0, 0.0]), ("__user_flux", None, True)],
 }
 
@@ -82,6 +84,8 @@ def apply(devs):
                 d["met"].pop(k_, None)
         elif key == "__square":
             d["domain"]["nx"], d["domain"]["ny"], d["domain"]["modes"] = val, val, [val, val]
+        elif key == "__odd":
+            d["domain"]["nx"], d["domain"]["modes"] = val, [4, 4]
         elif key == "__no_origin":
             d["domain"].pop("ref_lat")
             d["domain"].pop("ref_lon")
@@ -228,7 +232,57 @@ def case_config(case):
     return {"v": v[:5], "nt": runs if runs else 1, "key": core.canon(case), "n": n, "obs": {"tower_step_runs_compared": runs, "towers": len(cfg.towers), "steps": cfg.met.n_timesteps}}
 
 
-MUT_OPS = ["run0", "run1", "set-wind_dir", "set-ustar", "set-halo", "edit-returned-params", "move-tower", "rescale-domain"]
+def case_broken_cache(case):
+    """a run that is handed a cache whose directory disappears (or turns into a plain file) in the middle of a series:
+    every later step either raises or is the pipeline for THAT step - never another step's result"""
+    import copy
+    import shutil
+
+    from bldfm.cache import GreensFunctionCache
+    from bldfm.config_parser import parse_config_dict
+    from bldfm.interface import run_bldfm_single
+
+    raw, _ = apply([("met", "wind_dir", [10.0, 200.0, 300.0]), ("met", "ustar", [0.3, 0.4, 0.5]), ("met", "timestamps", ["t0", "t1", "t2"]), ("solver", "footprint", True)] + [tuple(x) for x in case.get("devs", [])])
+    cfg = parse_config_dict(copy.deepcopy(raw))
+    cdir = os.path.join(os.getcwd(), "bc_%s" % core.case_hash(case))
+    shutil.rmtree(cdir, ignore_errors=True)
+    cache = GreensFunctionCache(cdir)
+    v = []
+    n = 0
+    tw = cfg.towers[0]
+    order = case["order"]
+    try:
+        for k, i in enumerate(order):
+            if k == case["break_at"]:
+                shutil.rmtree(cdir, ignore_errors=True)
+                if case["how"] == "file":
+                    open(cdir, "w").close()
+            n += 2
+            with warnings.catch_warnings():
+                warnings.simplefilter("ignore")
+                try:
+                    r = run_bldfm_single(cfg, tw, met_index=i, cache=cache)
+                except Exception:
+                    continue  # refused: nothing delivered
+                (g, c, f), m = manual(cfg, tw, i, None)
+            bad = []
+            if not (np.shape(r["conc"]) == np.shape(c) and np.array_equal(r["conc"], c) and np.array_equal(r["flx"], f)):
+                bad.append("fields")
+            if r["timestamp"] != m["timestamp"] or r["params"] != m:
+                bad.append("timestamp %r / params (step %d has %r)" % (r["timestamp"], i, m["timestamp"]))
+            if bad:
+                v.append({"sub": "broken-cache", "sig": "broken-cache/%s" % bad[0].split()[0], "msg": "steps %r with one cache object whose directory %s before call %d: the run of step %d returned, but differs from the pipeline for that step in %s"
+                          % (order, "vanished" if case["how"] == "gone" else "was replaced by a file", case["break_at"], i, "; ".join(bad))})
+                break
+    finally:
+        if os.path.isdir(cdir):
+            shutil.rmtree(cdir, ignore_errors=True)
+        elif os.path.exists(cdir):
+            os.unlink(cdir)
+    return {"v": v, "nt": True, "n": n}
+
+
+MUT_OPS = ["run0", "run1", "set-wind_dir", "set-ustar", "set-halo", "edit-returned-params", "move-tower", "rescale-domain", "set-levels", "set-full_output", "set-nz"]
 
 
 def case_mutation_history(case):
@@ -255,8 +309,18 @@ def case_mutation_history(case):
     v = []
     n = 0
     bump = 0
+    out_levels, full_out, nz = None, False, 4  # the harness' own record of the output request
     for k, op in enumerate(case["ops"]):
-        if op == "set-wind_dir":
+        if op == "set-levels":
+            out_levels = [3, 1] if out_levels is None else ([2] if out_levels == [3, 1] else None)
+            cfg.domain.output_levels = None if out_levels is None else list(out_levels)
+        elif op == "set-full_output":
+            full_out = not full_out
+            cfg.domain.full_output = full_out
+        elif op == "set-nz":
+            nz = 6 if nz == 4 else 4
+            cfg.domain.nz = nz
+        elif op == "set-wind_dir":
             bump += 1
             met["wind_dir"][0] = 40.0 + 25.0 * bump
             cfg.met.wind_dir[0] = met["wind_dir"][0]
@@ -285,12 +349,15 @@ def case_mutation_history(case):
                 warnings.simplefilter("ignore")
                 r = run_bldfm_single(cfg, cfg.towers[0], met_index=i)
                 u, w = compute_wind_fields(exp["wind_speed"], exp["wind_dir"])
-                z, prof = vertical_profiles(cfg.domain.nz, cfg.towers[0].z_m, (u, w), ustar=exp["ustar"], mol=exp["mol"], closure="MOST")
+                z, prof = vertical_profiles(nz, cfg.towers[0].z_m, (u, w), ustar=exp["ustar"], mol=exp["mol"], closure="MOST")
                 q = ideal_source((8, 6), dom_xy, src_loc=None, shape="diamond")
-                g, c, f = S(q, z, prof, dom_xy, cfg.domain.nz, modes=(8, 6), meas_pt=tower_xy, footprint=True, halo=halo, precision="single")
+                lv = out_levels if out_levels else (list(range(nz + 1)) if full_out else nz)
+                g, c, f = S(q, z, prof, dom_xy, lv, modes=(8, 6), meas_pt=tower_xy, footprint=True, halo=halo, precision="single")
             diffs = []
-            if not (np.array_equal(r["conc"], c) and np.array_equal(r["flx"], f)):
-                diffs.append("fields")
+            if not (np.shape(r["conc"]) == np.shape(c) and np.array_equal(r["conc"], c) and np.array_equal(r["flx"], f)):
+                diffs.append("fields (shape %s, requested levels %r give %s)" % (np.shape(r["conc"]), lv, np.shape(c)))
+            elif not all(np.array_equal(a_, b_) for a_, b_ in zip(r["grid"], g)):
+                diffs.append("grid (heights of the returned slices)")
             if any(r["params"].get(kk) != vv for kk, vv in exp.items()):
                 diffs.append("params %r" % ({kk: r["params"].get(kk) for kk in exp},))
             if r["timestamp"] != exp["timestamp"] or r["tower_xy"] != tower_xy:
@@ -350,3 +417,5 @@ def run(ctx):
     md = 4 if ctx.tier == "quick" else 5
     mh = [{"ops": list(h)} for d in range(2, md + 1) for h in itertools.product(MUT_OPS, repeat=d) if h[-1].startswith("run") and sum(o.startswith("run") for o in h) >= 2]
     ctx.run_cases(case_mutation_history, mh, sub="config-mutation-sessions")
+    bc = [{"order": list(o), "break_at": b, "how": h} for o in ((0, 1, 2), (2, 1, 0), (1, 1, 2), (0, 2, 2)) for b in (0, 1, 2) for h in ("gone", "file")]
+    ctx.run_cases(case_broken_cache, bc, sub="cache directory breaks in the middle of a series")
